@@ -5,18 +5,39 @@ import json, os, sys
 ROOT = os.path.dirname(os.path.abspath(__file__))
 ENV = "GOFLAGS=-mod=mod GOPROXY=off GOSUMDB=off GOTOOLCHAIN=local GOWORK=off"
 
-# id -> (technique, what a pass means, what is assumed / not decided, design section)
-CLAIMED = {
-    "C05": ("typestate over CAS key-locks + must-pass-through / who-may-call queries on go/ssa with bottom-up effect summaries",
-            "Decides, on every path of the teardown functions, the premises of the exactly-once argument: callback runner only under the processing lock, closer never unlocks, closed-before-callbacks, closing monotone, LIFO walk, close/detach/free once-guards, unlock->re-read->help hand-off, finalizer order. A pass means the protocol shapes are present on all paths; it does not prove the behavioural statement under all schedules.",
-            "sync/atomic is linearizable; user callbacks panic only inside the callback call; role table in checker/roles.go; descriptor identity and re-entrant callbacks not decided",
-            "DESIGN.md §4 C05"),
+# technique per property (the explanation / assumptions come from the checker itself: bin/nplint -list)
+TECH = {
+    "C05": "typestate over CAS key-locks, must-pass-through and guard-fact queries on go/ssa, bottom-up may/must effect summaries, who-may-call tables",
+    "C06": "typestate (processing lock) + unlock->re-read->relock hand-off as must-pass-through queries; publish-before-try dominance",
+    "C07": "publish-then-check dominance, guard facts on the closing state, select/timer case edges, error-constant per branch, nil-guard facts",
+    "C08": "typestate (flushing lock), guard facts on buffer emptiness, value plumbing of the sendmsg count, timer hygiene paths",
+    "C09": "who-may-call tables, CAS guard facts, unlock(connecting)->re-read->help hand-off, must-precede queries",
+    "C10": "token pairing (exactly-one release per path) on the poller dispatch function, field-access-under-token guard facts, who-may-call tables, per-site ownership justification",
+    "C11": "per-path dispatch rules on the epoll/kqueue dispatch function: reasoned hang-up verdicts, readall-before-hup under assumed event flags, ack count plumbing, close-message path",
+    "C12": "sibling rule over the Writer method set (guard + error constant), reader guard facts, type-level facts on (*exception).Is/Timeout",
+    "C13": "track-then-recheck must-pass-through, LIFO registration order, guard facts on Shutdown returns and the idle predicate",
+    "C14": "acquire/release pairing on error exits (descriptor, poller slot), ctx-branch must-pass-through, type-level fact: deadline error has Timeout()",
+    "C15": "close(2) call-site census (who-may-call), field-sensitive borrowed-descriptor rule, once-guard facts, error-exit pairing",
 }
+NOTE = "trusted: go/types+go/ssa (x/tools v0.29.0) model of the source, linearizable sync/atomic, role tables in /verif/checker; decides structural necessary conditions only - see level_claimed.text for what is not decided"
+
+def claimed():
+    import subprocess
+    out = subprocess.check_output([os.path.join(ROOT, "bin/nplint"), "-list"])
+    res = {}
+    for p in json.loads(out):
+        if p["id"] in TECH:
+            res[p["id"]] = (TECH[p["id"]], p["explain"], NOTE + "; assumes: " + "; ".join(p["assume"]), "DESIGN.md §4 " + p["id"])
+    return res
+
+CLAIMED = None
 
 NOT_YET = "static check not built yet in this round (work in progress); see DESIGN.md §4 for the planned obligations"
 NA = {}
 
 def main():
+    global CLAIMED
+    CLAIMED = claimed()
     props = [json.loads(l) for l in open(os.path.join(ROOT, "properties.jsonl"))]
     checks, na = [], []
     for p in props:
